@@ -1,542 +1,75 @@
-//! C06 conformance: the static handlers (humphrey::handlers::{serve_dir, serve_as_file_path}, the server's
-//! directory_handler) against spec/static/StaticFs.tla.
-//!
-//!   staticfs replay <scratch-dir> [threads]
-//!       stdin : lines printed by TLC - {"routes":[..],"nostar":[..]}, {"world":k,"root":[..],"nodes":[..]} and
-//!               per request path {"r":[bytes],"d":[E,E,E],"f":[E,E,E],"x":[[st,id],..]}, E = [kind,id,ct(,akind,aid,act)]
-//!       Every world is built below <scratch-dir> (canary and twin beside the root), every path is sent to
-//!       serve_dir and directory_handler under every route prefix and to serve_as_file_path, and the answer
-//!       (status, Location, Content-Type, identity of the body, canary marker) is compared with E.
-//!       stdout: one summary line.
-//!   staticfs random <worlds> <requests-per-world> <scratch-dir> <worlds-out.ndjson>
-//!       random worlds and deeper random request paths (plus every file and directory of each world under its
-//!       spellings); stdout: one record per call {"w","h","route","uri","st","id","ct","loc","canary"} for TLC
-//!       (Trace_StaticFs), the worlds go to <worlds-out.ndjson>.
-//!
-//! The harness knows nothing about decoding, guards or lookups: expectations come from TLC; the only logic here is
-//! the projection of a Response and the comparison `conforms` (mirrors Conforms in StaticFs.tla).
-use hv::util::*;
-use humphrey::handlers::{serve_as_file_path, serve_dir};
-use humphrey::http::address::Address;
-use humphrey::http::headers::{HeaderType, Headers};
-use humphrey::http::method::Method;
+//! C06 conformance, threaded runtime: humphrey::handlers::{serve_dir, serve_as_file_path, serve_file} and the
+//! server's directory_handler (humphrey-server/src/server/static.rs) called in-process.  Everything else is in
+//! staticfs_common (shared with harness-tokio/src/bin/staticfs.rs).
+use hv::util as hutil;
+#[path = "staticfs_common/mod.rs"]
+mod common;
+
+use common::{leak, request, Backend};
+use humphrey::handlers::{serve_as_file_path, serve_dir, serve_file};
 use humphrey::http::{Request, Response};
-use humphrey::percent::PercentEncode;
-use humphrey_server::config::{Config, LoggingConfig};
+use humphrey_server::config::{CacheConfig, Config, LoggingConfig};
 use humphrey_server::logger::LogLevel;
 use humphrey_server::r#static::directory_handler;
 use humphrey_server::AppState;
-use serde_json::{json, Value};
-use std::collections::HashMap;
-use std::ffi::OsString;
-use std::net::{IpAddr, Ipv4Addr};
-use std::os::unix::ffi::OsStringExt;
-use std::path::PathBuf;
 use std::sync::Arc;
 
-const CANARY_MARK: &[u8] = b"HV-CANARY-MARKER";
-const FILE_MARK: &[u8] = b"HVFILE:";
+type PathAware = Box<dyn Fn(Request, Arc<()>, &str) -> Response + Send + Sync>;
+type Plain = Box<dyn Fn(Request, Arc<()>) -> Response + Send + Sync>;
 
-fn leak(s: String) -> &'static str {
-    Box::leak(s.into_boxed_str())
+/// The entry points bound to one directory, given with and without a trailing slash.
+struct Threaded {
+    sd: PathAware,
+    sd_slash: PathAware,
+    fp: Plain,
+    fp_slash: Plain,
+    dir: &'static str,
+    dir_slash: &'static str,
+    state: Arc<AppState>,          // cache off (size limit 0)
+    state_cached: Arc<AppState>,   // cache on: the second identical request is answered from the cache
+    unit: Arc<()>,
 }
 
-/// Deterministic content of file `id`; `outside` files carry the canary marker. Every byte value occurs.
-fn content(id: i64, outside: bool) -> Vec<u8> {
-    let mut v = Vec::new();
-    if outside {
-        v.extend_from_slice(CANARY_MARK);
-        v.extend_from_slice(format!(":{}:", id).as_bytes());
-    } else {
-        v.extend_from_slice(FILE_MARK);
-        v.extend_from_slice(format!("{}:", id).as_bytes());
-    }
-    let n = ((id as u64).wrapping_mul(2654435761) % 2500) as usize;
-    let mut x = (id as u64).wrapping_mul(0x9E3779B97F4A7C15) | 1;
-    for i in 0..n {
-        x ^= x << 13;
-        x ^= x >> 7;
-        x ^= x << 17;
-        v.push(if i < 256 { i as u8 } else { (x >> 24) as u8 });
-    }
-    v.extend_from_slice(b"\r\n\0END");
-    v
-}
-
-#[derive(Clone)]
-struct Node {
-    p: Vec<Vec<u8>>,
-    k: String,
-    id: i64,
-}
-
-struct World {
-    ix: usize,
-    root_names: Vec<Vec<u8>>,
-    nodes: Vec<Node>,
-    root_dir: String,                 // absolute path of the served directory, no trailing slash
-    by_content: HashMap<Vec<u8>, i64>,
-}
-
-fn names_to_path(base: &PathBuf, names: &[Vec<u8>]) -> PathBuf {
-    let mut p = base.clone();
-    for n in names {
-        p.push(OsString::from_vec(n.clone()));
-    }
-    p
-}
-
-fn is_prefix(a: &[Vec<u8>], b: &[Vec<u8>]) -> bool {
-    a.len() <= b.len() && a.iter().zip(b.iter()).all(|(x, y)| x == y)
-}
-
-fn bytes_of(v: &Value) -> Vec<u8> {
-    v.as_array().map(|a| a.iter().map(|x| x.as_u64().unwrap_or(0) as u8).collect()).unwrap_or_default()
-}
-
-fn parse_world(v: &Value) -> (usize, Vec<Vec<u8>>, Vec<Node>) {
-    let ix = v["world"].as_u64().unwrap() as usize;
-    let root: Vec<Vec<u8>> = v["root"].as_array().unwrap().iter().map(bytes_of).collect();
-    let nodes = v["nodes"].as_array().unwrap().iter().map(|n| Node {
-        p: n["p"].as_array().unwrap().iter().map(bytes_of).collect(),
-        k: n["k"].as_str().unwrap().to_string(),
-        id: n["id"].as_i64().unwrap(),
-    }).collect();
-    (ix, root, nodes)
-}
-
-/// Realise a world below `scratch/w<ix>` (that directory is the top node).
-fn build_world(scratch: &str, ix: usize, root: Vec<Vec<u8>>, mut nodes: Vec<Node>) -> World {
-    let top = PathBuf::from(scratch).join(format!("w{}", ix));
-    let _ = std::fs::remove_dir_all(&top);
-    std::fs::create_dir_all(&top).expect("create top");
-    nodes.sort_by_key(|n| n.p.len());
-    let mut by_content = HashMap::new();
-    for n in &nodes {
-        let path = names_to_path(&top, &n.p);
-        if n.k == "d" {
-            std::fs::create_dir_all(&path).expect("mkdir");
-        } else {
-            let outside = !is_prefix(&root, &n.p);
-            let c = content(n.id, outside);
-            std::fs::write(&path, &c).expect("write file");
-            by_content.insert(c, n.id);
-        }
-    }
-    let root_dir = names_to_path(&top, &root).to_str().expect("utf8 root").to_string();
-    World { ix, root_names: root, nodes, root_dir, by_content }
-}
-
-#[derive(Clone, Debug)]
-struct Got {
-    st: u16,
-    id: i64,       // 0 = no file content, -1 = damaged / partial file content
-    ct: String,
-    loc: Vec<u8>,
-    canary: bool,
-    panic: bool,
-}
-
-fn find(hay: &[u8], needle: &[u8]) -> bool {
-    hay.windows(needle.len()).any(|w| w == needle)
-}
-
-fn project(w: &World, r: Result<Response, ()>) -> Got {
-    match r {
-        Err(_) => Got { st: 0, id: 0, ct: String::new(), loc: vec![], canary: false, panic: true },
-        Ok(resp) => {
-            let st: u16 = resp.status_code.into();
-            let id = match w.by_content.get(&resp.body) {
-                Some(i) => *i,
-                None => if find(&resp.body, FILE_MARK) || find(&resp.body, CANARY_MARK) { -1 } else { 0 },
-            };
-            Got {
-                st,
-                id,
-                ct: resp.headers.get(HeaderType::ContentType).unwrap_or("").to_string(),
-                loc: resp.headers.get(HeaderType::Location).unwrap_or("").as_bytes().to_vec(),
-                canary: find(&resp.body, CANARY_MARK),
-                panic: false,
-            }
-        }
-    }
-}
-
-fn request(uri: &str) -> Request {
-    Request {
-        method: Method::Get,
-        uri: uri.to_string(),
-        query: String::new(),
-        version: "HTTP/1.1".to_string(),
-        headers: Headers::new(),
-        content: None,
-        address: Address { origin_addr: IpAddr::V4(Ipv4Addr::new(127, 0, 0, 1)), proxies: vec![], port: 4242 },
-    }
-}
-
-fn app_state() -> Arc<AppState> {
+fn app_state(cache: bool) -> Arc<AppState> {
     let config = Config {
         logging: LoggingConfig { level: LogLevel::Error, console: false, file: None },
+        cache: if cache { CacheConfig { size_limit: 64 << 20, time_limit: 3600 } } else { CacheConfig::default() },
         ..Default::default()
     };
     Arc::new(AppState::from(config))
 }
 
-/// The three entry points bound to one world. Directory strings are given with and without a trailing slash.
-struct Handlers {
-    sd: Box<dyn Fn(Request, Arc<()>, &str) -> Response + Send + Sync>,
-    sd_slash: Box<dyn Fn(Request, Arc<()>, &str) -> Response + Send + Sync>,
-    fp: Box<dyn Fn(Request, Arc<()>) -> Response + Send + Sync>,
-    fp_slash: Box<dyn Fn(Request, Arc<()>) -> Response + Send + Sync>,
-    dir: &'static str,
-    dir_slash: &'static str,
-    state: Arc<AppState>,
-    unit: Arc<()>,
-}
-
-impl Handlers {
-    fn new(w: &World) -> Self {
-        let dir = leak(w.root_dir.clone());
-        let dir_slash = leak(format!("{}/", w.root_dir));
-        Handlers {
-            sd: Box::new(serve_dir::<()>(dir)),
-            sd_slash: Box::new(serve_dir::<()>(dir_slash)),
-            fp: Box::new(serve_as_file_path::<()>(dir)),
-            fp_slash: Box::new(serve_as_file_path::<()>(dir_slash)),
-            dir,
-            dir_slash,
-            state: app_state(),
+impl Backend for Threaded {
+    fn new(dir: &str) -> Self {
+        let d = leak(dir.to_string());
+        let ds = leak(format!("{}/", dir));
+        Threaded {
+            sd: Box::new(serve_dir::<()>(d)),
+            sd_slash: Box::new(serve_dir::<()>(ds)),
+            fp: Box::new(serve_as_file_path::<()>(d)),
+            fp_slash: Box::new(serve_as_file_path::<()>(ds)),
+            dir: d,
+            dir_slash: ds,
+            state: app_state(false),
+            state_cached: app_state(true),
             unit: Arc::new(()),
         }
     }
-    /// h: "serve_dir" | "directory" | "file_path"; `alt` selects the trailing-slash spelling of the directory
-    fn call(&self, w: &World, h: &str, route: &str, uri: &str, alt: bool) -> Got {
+    fn handlers() -> &'static [&'static str] {
+        &["serve_dir", "directory", "directory_cached", "file_path", "serve_file"]
+    }
+    fn call(&self, h: &str, route: &str, uri: &str, alt: bool) -> Response {
         let req = request(uri);
-        let r = std::panic::catch_unwind(std::panic::AssertUnwindSafe(|| match h {
+        match h {
             "serve_dir" => if alt { (self.sd_slash)(req, self.unit.clone(), route) } else { (self.sd)(req, self.unit.clone(), route) },
             "directory" => directory_handler(req, self.state.clone(), if alt { self.dir_slash } else { self.dir }, route, 0),
+            "directory_cached" => directory_handler(req, self.state_cached.clone(), if alt { self.dir_slash } else { self.dir }, route, 0),
+            "serve_file" => (serve_file::<()>(leak(format!("{}/{}", self.dir, route))))(req, self.unit.clone()),
             _ => if alt { (self.fp_slash)(req, self.unit.clone()) } else { (self.fp)(req, self.unit.clone()) },
-        }));
-        project(w, r.map_err(|_| ()))
-    }
-}
-
-fn ct_ok(ect: &str, gct: &str) -> bool {
-    if ect == "?" { gct.is_empty() || gct == "application/octet-stream" } else { gct == ect }
-}
-
-/// Conforms in StaticFs.tla for one (kind, id, ct)
-fn conforms_one(k: &str, id: i64, ct: &str, uri: &[u8], g: &Got) -> bool {
-    match k {
-        "f" => g.st == 200 && g.id == id && ct_ok(ct, &g.ct),
-        "r" => g.st == 301 && g.id == 0 && g.loc.len() == uri.len() + 1 && g.loc[..uri.len()] == *uri && g.loc[uri.len()] == b'/',
-        "n" => g.st == 404 && g.id == 0,
-        "x" => (400..=499).contains(&g.st) && g.id == 0,
-        _ => false,
-    }
-}
-
-fn conforms(e: &Value, uri: &[u8], g: &Got) -> bool {
-    if g.canary || g.panic { return false; }
-    let a = e.as_array().unwrap();
-    if conforms_one(a[0].as_str().unwrap(), a[1].as_i64().unwrap(), a[2].as_str().unwrap(), uri, g) { return true; }
-    a.len() >= 6 && conforms_one(a[3].as_str().unwrap(), a[4].as_i64().unwrap(), a[5].as_str().unwrap(), uri, g)
-}
-
-fn got_json(g: &Got) -> Value {
-    json!({"st": g.st, "id": g.id, "ct": g.ct, "loc": String::from_utf8_lossy(&g.loc), "canary": g.canary, "panic": g.panic})
-}
-
-fn prefix_of(route: &[u8]) -> Vec<u8> {
-    if route.last() == Some(&b'*') { route[..route.len() - 1].to_vec() } else { route.to_vec() }
-}
-
-struct Tally {
-    lines: u64,
-    evals: u64,
-    nontrivial: u64,
-    mism: u64,
-    canary_hits: u64,
-    first: Vec<Value>,
-    samples: Vec<Value>,
-}
-
-fn replay(scratch: &str, threads: usize) {
-    let mut worlds: Vec<World> = vec![];
-    let mut routes: Vec<Vec<u8>> = vec![];
-    let mut nostar: Vec<u8> = vec![];
-    let mut vectors: Vec<Value> = vec![];
-    for line in stdin_lines() {
-        let v: Value = match serde_json::from_str(&line) { Ok(v) => v, Err(_) => continue };
-        if v.get("world").is_some() {
-            let (ix, root, nodes) = parse_world(&v);
-            worlds.push(build_world(scratch, ix, root, nodes));
-        } else if v.get("routes").is_some() {
-            routes = v["routes"].as_array().unwrap().iter().map(bytes_of).collect();
-            nostar = bytes_of(&v["nostar"]);
-        } else if v.get("r").is_some() {
-            vectors.push(v);
         }
-    }
-    worlds.sort_by_key(|w| w.ix);
-    if worlds.is_empty() || routes.is_empty() {
-        eprintln!("staticfs replay: no worlds / routes on stdin");
-        std::process::exit(2);
-    }
-    let worlds = Arc::new(worlds);
-    let routes = Arc::new(routes);
-    let nostar = Arc::new(nostar);
-    let vectors = Arc::new(vectors);
-    let nthreads = threads.max(1);
-    let mut handles = vec![];
-    for t in 0..nthreads {
-        let (worlds, routes, nostar, vectors) = (worlds.clone(), routes.clone(), nostar.clone(), vectors.clone());
-        handles.push(std::thread::spawn(move || {
-            let hs: Vec<Handlers> = worlds.iter().map(Handlers::new).collect();
-            let mut ta = Tally { lines: 0, evals: 0, nontrivial: 0, mism: 0, canary_hits: 0, first: vec![], samples: vec![] };
-            let mut i = t;
-            while i < vectors.len() {
-                let v = &vectors[i];
-                i += nthreads;
-                ta.lines += 1;
-                let rel = bytes_of(&v["r"]);
-                let mut interesting = false;
-                for (wi, w) in worlds.iter().enumerate() {
-                    let ed = &v["d"][wi];
-                    let ef = &v["f"][wi];
-                    let x = &v["x"][wi];
-                    let k_d = ed[0].as_str().unwrap();
-                    let k_f = ef[0].as_str().unwrap();
-                    if k_d == "f" || k_d == "r" || k_f == "f" || ed.as_array().unwrap().len() > 3 || ef.as_array().unwrap().len() > 3
-                        || (x[0].as_u64() == Some(200) && k_f != "f") {
-                        interesting = true;
-                    }
-                    // (handler, route, uri, expectation)
-                    let mut calls: Vec<(&str, Vec<u8>, Vec<u8>, &Value)> = vec![];
-                    for route in routes.iter() {
-                        let mut uri = prefix_of(route);
-                        uri.extend_from_slice(&rel);
-                        calls.push(("serve_dir", route.clone(), uri.clone(), ed));
-                        calls.push(("directory", route.clone(), uri, ed));
-                    }
-                    if rel.is_empty() {
-                        // a route without wildcard only ever sees itself
-                        calls.push(("serve_dir", nostar.to_vec(), nostar.to_vec(), ed));
-                        calls.push(("directory", nostar.to_vec(), nostar.to_vec(), ed));
-                    }
-                    let mut uri = vec![b'/'];
-                    uri.extend_from_slice(&rel);
-                    calls.push(("file_path", vec![], uri, ef));
-                    for (ci, (h, route, uri, e)) in calls.iter().enumerate() {
-                        let uri_s = match std::str::from_utf8(uri) { Ok(s) => s, Err(_) => continue };   // a Request uri is a String
-                        let route_s = std::str::from_utf8(route).unwrap();
-                        let alt = (i + ci + wi) % 2 == 1;
-                        let g = hs[wi].call(w, h, route_s, uri_s, alt);
-                        ta.evals += 1;
-                        if g.canary { ta.canary_hits += 1; }
-                        if !conforms(e, uri, &g) {
-                            ta.mism += 1;
-                            if ta.first.len() < 40 {
-                                let dev = if *h == "file_path" && !g.panic && x[0].as_u64() == Some(g.st as u64) && x[1].as_i64() == Some(g.id) { "FilePathNoCheck" } else { "" };
-                                ta.first.push(json!({"world": w.ix, "handler": h, "route": route_s, "uri": uri_s, "uri_bytes": uri,
-                                    "dir_with_trailing_slash": alt, "expected": e, "got": got_json(&g), "dev": dev}));
-                            }
-                        } else if ta.samples.len() < 3 && e[0].as_str() != Some("x") && e[0].as_str() != Some("n") && rel.len() > 6 && (i / nthreads) % 97 == 0 {
-                            ta.samples.push(json!({"world": w.ix, "handler": h, "route": route_s, "uri": uri_s, "expected": e, "got": got_json(&g)}));
-                        }
-                    }
-                }
-                if interesting { ta.nontrivial += 1; }
-            }
-            ta
-        }));
-    }
-    let mut tot = Tally { lines: 0, evals: 0, nontrivial: 0, mism: 0, canary_hits: 0, first: vec![], samples: vec![] };
-    for h in handles {
-        let ta = h.join().expect("worker");
-        tot.lines += ta.lines;
-        tot.evals += ta.evals;
-        tot.nontrivial += ta.nontrivial;
-        tot.mism += ta.mism;
-        tot.canary_hits += ta.canary_hits;
-        for f in ta.first { if tot.first.len() < 40 { tot.first.push(f); } }
-        for s in ta.samples { if tot.samples.len() < 6 { tot.samples.push(s); } }
-    }
-    for w in worlds.iter() {
-        let _ = std::fs::remove_dir_all(PathBuf::from(scratch).join(format!("w{}", w.ix)));
-    }
-    out_line(&json!({"summary": true, "lines": tot.lines, "worlds": worlds.len(), "evaluations": tot.evals, "nontrivial": tot.nontrivial,
-        "mismatches": tot.mism, "canary_hits": tot.canary_hits, "first": tot.first, "samples": tot.samples}));
-}
-
-// ------------------------------------------------------------------------------------------------
-// random worlds / requests (code -> spec direction)
-// ------------------------------------------------------------------------------------------------
-
-const NAME_POOL: &[&str] = &[
-    "a", "b", "dir.d", "index.html", "index.htm", "noext", "x.txt", "y.css", "sp ace", "ü", "%41", "a..b", "...", "x:y",
-    "%2e%2e", ".h", "c\\d", "file.tar.gz", "é😀.png", "A", "z.json", "INDEX.HTML", "index.html.bak", "p+q", "q?r", "h#i", "t~", "w.", "rootx", "root",
-];
-const ATTACKS: &[&str] = &[
-    ".", "..", "...", "", "%2e%2e", "%2E.", ".%2e", "%2f", "%5c", "%00", "%252e%252e", "%c0%ae%c0%ae", "%2e", "..%2f", "%2e%2e%2f",
-    "canary.txt", "rootx", "root", "base", "index.html", "index.htm", "%zz", "%", "%4", "..%5c", "..;", "%uff0e%uff0e", "%e0%80%ae", "\\..", "%2e%2e%5c",
-    "....//", "..%00", "%c3", "%ff", "x%3ay", "c:",
-];
-
-fn hex(b: u8, upper: bool) -> String {
-    if upper { format!("%{:02X}", b) } else { format!("%{:02x}", b) }
-}
-
-/// random spelling of a name: each byte raw or percent-encoded (reserved bytes are always encoded so that
-/// the spelling still denotes the name after one decoding)
-fn spell(rng: &mut Rng, name: &[u8], p_enc: usize) -> Vec<u8> {
-    let mut out = vec![];
-    for &b in name {
-        let must = b == b'%' || b >= 0x80 && rng.chance(1, 2);
-        if must || rng.chance(p_enc, 10) {
-            out.extend_from_slice(hex(b, rng.chance(1, 2)).as_bytes());
-        } else {
-            out.push(b);
-        }
-    }
-    out
-}
-
-fn gen_world(rng: &mut Rng, ix: usize) -> (Vec<Vec<u8>>, Vec<Node>) {
-    let above: Vec<Vec<u8>> = ["l1", "l2", "l3", "l4", "base"].iter().map(|s| s.as_bytes().to_vec()).collect();
-    let mut root = above.clone();
-    root.push(b"root".to_vec());
-    let mut nodes = vec![];
-    for i in 0..=root.len() {
-        nodes.push(Node { p: root[..i].to_vec(), k: "d".into(), id: 0 });
-    }
-    // beside the root: the canary, a twin of a likely name, and a directory whose name extends the root's
-    let mut beside = |name: &[&str], k: &str, id: i64| {
-        let mut p = above.clone();
-        for n in name { p.push(n.as_bytes().to_vec()); }
-        nodes.push(Node { p, k: k.into(), id });
-    };
-    beside(&["canary.txt"], "f", 900);
-    beside(&["index.html"], "f", 901);
-    beside(&["rootx"], "d", 0);
-    beside(&["rootx", "index.html"], "f", 902);
-    beside(&["a"], "f", 903);
-    let mut next_id = 1 + (ix as i64 % 7);
-    // breadth-first random tree, depth <= 3
-    let mut frontier: Vec<(Vec<Vec<u8>>, usize)> = vec![(root.clone(), 0)];
-    while let Some((dir, depth)) = frontier.pop() {
-        let n = if depth == 0 { rng.range(2, 6) } else { rng.range(0, 4) };
-        let mut used: Vec<&str> = vec![];
-        for _ in 0..n {
-            let name = *rng.pick(NAME_POOL);
-            if used.contains(&name) { continue; }
-            used.push(name);
-            let mut p = dir.clone();
-            p.push(name.as_bytes().to_vec());
-            let as_dir = depth < 3 && rng.chance(2, 5);
-            if as_dir {
-                nodes.push(Node { p: p.clone(), k: "d".into(), id: 0 });
-                frontier.push((p, depth + 1));
-            } else {
-                nodes.push(Node { p, k: "f".into(), id: next_id });
-                next_id += 1;
-            }
-        }
-    }
-    (root, nodes)
-}
-
-fn random(nworlds: usize, per_world: usize, scratch: &str, worlds_out: &str) {
-    use std::io::Write;
-    let mut rng = Rng::from_env();
-    let mut wf = std::fs::File::create(worlds_out).expect("worlds out");
-    let routes: Vec<&str> = vec!["/*", "/static/*", "/dür/*", "/a/b/*", "/%2e/*", "/s*"];
-    for wi in 1..=nworlds {
-        let (root, nodes) = gen_world(&mut rng, wi);
-        let nodes_json: Vec<Value> = nodes.iter().map(|n| json!({"p": n.p, "k": n.k, "id": n.id})).collect();
-        writeln!(wf, "{}", json!({"world": wi, "root": root, "nodes": nodes_json})).unwrap();
-        let w = build_world(scratch, wi, root.clone(), nodes.clone());
-        let hs = Handlers::new(&w);
-        let inside: Vec<&Node> = w.nodes.iter().filter(|n| is_prefix(&w.root_names, &n.p) && n.p.len() > w.root_names.len()).collect();
-        let mut rels: Vec<Vec<u8>> = vec![];
-        // every file and directory under its spellings (positive half, redirect and index rule)
-        for n in &inside {
-            let names = &n.p[w.root_names.len()..];
-            let raw: Vec<u8> = names.join(&b'/');
-            let lib: Vec<u8> = names.iter().map(|x| x.percent_encode().into_bytes()).collect::<Vec<_>>().join(&b'/');
-            let all: Vec<u8> = names.iter().map(|x| x.iter().map(|b| hex(*b, false)).collect::<String>().into_bytes()).collect::<Vec<_>>().join(&b'/');
-            for mut r in [raw, lib, all] {
-                rels.push(r.clone());
-                if n.k == "d" { r.push(b'/'); rels.push(r); }
-            }
-        }
-        rels.push(vec![]);
-        // random deeper paths: names of the world, attack spellings, random encodings
-        for _ in 0..per_world {
-            let depth = rng.range(1, 8);
-            let mut segs: Vec<Vec<u8>> = vec![];
-            // start from an existing node half of the time so that lookups go deep
-            if !inside.is_empty() && rng.chance(1, 2) {
-                let n = *rng.pick(&inside);
-                for name in &n.p[w.root_names.len()..] {
-                    let p_enc = rng.below(4);
-                    segs.push(spell(&mut rng, name, p_enc));
-                }
-            }
-            // directed: climb out of wherever we are and name something that lies beside the root
-            if rng.chance(1, 6) {
-                let ups = segs.len() + 1 + rng.below(2);
-                let dd = *rng.pick(&["..", "..", "%2e%2e", ".%2E", "%252e%252e", "..%2f.", "%c0%ae%c0%ae"]);
-                for _ in 0..ups { segs.push(dd.as_bytes().to_vec()); }
-                for name in *rng.pick(&[&["canary.txt"][..], &["index.html"][..], &["rootx", "index.html"][..], &["a"][..], &["root", "index.html"][..], &["rootx", ""][..]]) {
-                    let p_enc = rng.below(3);
-                    segs.push(spell(&mut rng, name.as_bytes(), p_enc));
-                }
-                let rel = segs.join(&b'/');
-                if std::str::from_utf8(&rel).is_ok() { rels.push(rel); }
-                continue;
-            }
-            while segs.len() < depth {
-                let s = match rng.below(10) {
-                    0..=3 => rng.pick(ATTACKS).as_bytes().to_vec(),
-                    4..=6 => { let name = rng.pick(NAME_POOL).as_bytes().to_vec(); let p_enc = rng.below(5); spell(&mut rng, &name, p_enc) }
-                    7 => vec![],
-                    _ => rng.pick(NAME_POOL).as_bytes().to_vec(),
-                };
-                let at = rng.below(segs.len() + 1);
-                segs.insert(at, s);
-            }
-            let mut rel = segs.join(&b'/');
-            if rng.chance(1, 5) { rel.push(b'/'); }
-            if std::str::from_utf8(&rel).is_ok() { rels.push(rel); }
-        }
-        for (ri, rel) in rels.iter().enumerate() {
-            let route = routes[(ri + wi) % routes.len()].as_bytes().to_vec();
-            for h in ["serve_dir", "directory", "file_path"] {
-                let (route_b, uri): (Vec<u8>, Vec<u8>) = if h == "file_path" {
-                    (vec![], [b"/".to_vec(), rel.clone()].concat())
-                } else {
-                    (route.clone(), [prefix_of(&route), rel.clone()].concat())
-                };
-                let uri_s = std::str::from_utf8(&uri).unwrap();
-                let g = hs.call(&w, h, std::str::from_utf8(&route_b).unwrap(), uri_s, (ri + wi) % 2 == 0);
-                out_line(&json!({"w": wi, "h": h, "route": route_b, "uri": uri, "st": g.st, "id": g.id, "ct": g.ct,
-                    "loc": g.loc, "canary": g.canary || g.panic}));
-            }
-        }
-        let _ = std::fs::remove_dir_all(PathBuf::from(scratch).join(format!("w{}", wi)));
     }
 }
 
 fn main() {
-    quiet_panics();
-    let a: Vec<String> = std::env::args().collect();
-    match a.get(1).map(|s| s.as_str()) {
-        Some("replay") if a.len() >= 3 => replay(&a[2], a.get(3).and_then(|s| s.parse().ok()).unwrap_or(8)),
-        Some("random") if a.len() >= 6 => random(a[2].parse().unwrap(), a[3].parse().unwrap(), &a[4], &a[5]),
-        _ => {
-            eprintln!("usage: staticfs replay <scratch> [threads] | random <worlds> <per-world> <scratch> <worlds-out>");
-            std::process::exit(2)
-        }
-    }
+    common::main_with::<Threaded>();
 }
